@@ -1,9 +1,13 @@
 """C20: job sequences in ONE process versus each job alone in a FRESH process, on the real code.
 
 payload {"mode": "corpus"}                       -> shipped before/after samples (hw, vendor, old, new)
+payload {"mode": "probe", "models": [str]}        -> {"vendors": {name: reverse prefix}, "models": {model: vendor|null}}
 payload {"mode": "seqs", "seqs": [[job, ...], ...], "spawn": k}
    job = {"kind": "synth"|"shipped", "vendor", "hw"?, "patching", "ordering", "acl", "facl",
-          "old", "new", "old_id", "new_id", "add_comments"}
+          "old", "new", "old_id", "new_id", "add_comments", "refs"?}
+   refs = [[tree, tree], ...]: the device's generators referred to each other; a RefTracker is filled as
+          annet.generators.run_partial_generators fills it (one pair of generator classes per entry, the
+          first one's config refers to the second one's) and handed to _diff_and_patch(ref_track=...)
    -> per sequence a list of per-job observations
       {"seq": run,  "fresh": result, "fresh_spawn": result?}
       run = {"result", "old_before", "old_after", "new_before", "new_after", "rb_before", "rb_after",
@@ -188,10 +192,24 @@ def get_objects(job):
     return hw, rb, rb_arg, acl, facl
 
 
-def compute(hw, rb, rb_arg, acl, facl, old, new, add_comments):
+def ref_tracker(refs):
+    if not refs:
+        return None
+    from annet.reference import RefTracker
+    rt = RefTracker()
+    for i, (a, b) in enumerate(refs):
+        ga, gb = type(f"RefUser{i}", (), {}), type(f"RefDef{i}", (), {})
+        rt.add(ga, gb)
+        rt.config(ga, to_odict(a))
+        rt.config(gb, to_odict(b))
+    return rt
+
+
+def compute(hw, rb, rb_arg, acl, facl, old, new, add_comments, refs=None):
     res = {}
     try:
-        d, p = api._diff_and_patch(SimpleNamespace(hw=hw), old, new, acl, facl, add_comments, rb=rb_arg)
+        d, p = api._diff_and_patch(SimpleNamespace(hw=hw), old, new, acl, facl, add_comments,
+                                   ref_track=ref_tracker(refs), rb=rb_arg)
         res["diff"] = diff_json(d)
         res["patch"] = patch_json(p)
     except AssertionError:
@@ -229,7 +247,7 @@ def exec_job(job, objs, observe):
         a0 = [None if a is None else strip_match(a) for a in (acl, facl)]
         out["acl_static_before"] = digest(a0)
         out["acl_full_before"] = digest([None if a is None else snap(a) for a in (acl, facl)])
-    out["result"] = compute(hw, rb, rb_arg, acl, facl, old, new, bool(job.get("add_comments")))
+    out["result"] = compute(hw, rb, rb_arg, acl, facl, old, new, bool(job.get("add_comments")), job.get("refs"))
     if observe:
         s1 = snap(rb)
         out["old_after"], out["new_after"] = tree_json(old), tree_json(new)
@@ -293,6 +311,20 @@ def run(payload):
         sm = in_child(lambda: [dict(s, old=tree_json(s["old"]), new=tree_json(s["new"]))
                                for s in corpus.samples(os.environ["ANNET_VERIF_REPO_ROOT"])])
         return sm
+    if payload["mode"] == "probe":
+        def probe():
+            from annet.vendors import registry_connector
+            reg = registry_connector.get()
+            vendors = {str(n): str(v.reverse) for n, v in reg.vendors.items()}
+            models = {}
+            for m in payload["models"]:
+                try:
+                    v = HardwareView(m, "").vendor
+                    models[m] = None if v is None else str(v)
+                except Exception:  # noqa
+                    models[m] = None
+            return {"vendors": vendors, "models": models, "canonical": HW}
+        return in_child(probe)
     out = []
     spawn = int(payload.get("spawn", 0))
     for jobs in payload["seqs"]:
